@@ -28,9 +28,11 @@ def sec_to_public_pair(
             isok = isok or (sec0 in [b"\6", b"\7"])
         if isok:
             y = from_bytes_32(sec[1 + byte_count : 1 + 2 * byte_count])
+            if sec0 in (b"\6", b"\7") and (y & 1) != (sec0 == b"\7"):
+                raise EncodingError("hybrid sec prefix contradicts parity of y")
             return (x, y)
     elif len(sec) == 1 + byte_count:
-        if not strict or (sec0 in (b"\2", b"\3")):
+        if sec0 in (b"\2", b"\3"):
             is_y_odd = sec0 != b"\2"
             assert generator is not None
             return cast(tuple[int, int], generator.points_for_x(x)[is_y_odd])
